@@ -360,7 +360,7 @@ func (ex *Exec) symVal(st *State, name string, t types.Type, depth int) Val {
 		ex.Assumes = append(ex.Assumes, ex.geZero(l), ex.le(l, c), ex.le(c, ex.maxLen()))
 		if _, scalarElem := ex.elemSort(u.Elem()); scalarElem && !ex.resultMode && depth == 0 {
 			// aliases for the first elements (model extraction for replay)
-			for i := 0; i < 48; i++ {
+			for i := 0; i < 72; i++ {
 				alias := sanitizeSym(fmt.Sprintf("%s!e%d", name, i))
 				ex.Defs = append(ex.Defs, Def{Name: alias, S: *st.Mem[r].S.Elem, T: Select(st.Mem[r], ex.idxConst(int64(i)))})
 				ex.Inputs = append(ex.Inputs, alias)
